@@ -59,6 +59,10 @@ CLAIMED.update({
  'C17': dict(text='Set and function algebra only: UDQSet/UDQScalar arithmetic in all operand forms (set-set, set-scalar, scalar-set, scalar-SET broadcast) with definedness propagation, and the UDQ function implementations (reductions SUM/AVEA/AVEH/MAX/MIN/PROD/NORM1/NORM2/NORMI, elemental ABS/DEF/UNDEF/IDV/EXP/SORTA/SORTD, union UADD/UMUL/UMAX/UMIN) are executed with symbolic values and symbolic defined-flags over a 3-well set and compared element by element with the documented semantics. (Found and fixed: scalar - set returned set - scalar.)',
              note='the expression parser (precedence ladder), AST evaluation, UDQConfig::eval ordering of ASSIGN/DEFINE/UPDATE, wildcard matching and UDQState are outside; doubles as reals, divisors non-zero', design='4/C17'),
 })
+CLAIMED.update({
+ 'C08': dict(text='A unified restart file of three report steps with symbolic, strictly increasing SEQNUM values is produced by the real writer on an in-memory file system; the real ERst (EclFile::load + initUnified) indexes it; for a symbolic requested step the real restartStepWritePosition/seekPosition and OutputStream::Restart::openUnified/openExisting (truncate + append) run and the result is re-read: the write position is the header of the first step >= s (or append), earlier steps are preserved byte for byte, the written step is last, the step list stays strictly increasing - one inductive step from any valid file. Truncation: a file cut at every byte offset either reads back exactly or raises an error (found and fixed: the readers branched on uninitialised control words).',
+             note='file system, std::fstream family, std::filesystem::path/resize_file and isFormatted are models; 3 steps x 3 arrays, SEQNUM gaps 1..3; formatted restart files and EclipseIO\'s step selection outside', design='4/C08'),
+})
 NA = {
 }
 ALL = ['C%02d' % i for i in range(1, 21)]
